@@ -439,7 +439,8 @@ def generic_replay_check(pid, tier, progs, proj, what, rule, ctors=(0,), clone_p
     if seed is None:
         seed = SEED
     if rand_runs is None:
-        rand_runs = 60 if tier == "quick" else 400
+        # keep the number of recorded runs (each validated three times by TLC) bounded
+        rand_runs = 60 if tier == "quick" else max(20, min(400, 40000 // max(1, len(progs))))
     out = Outcome(pid)
     byid = {p.id: p for p in progs}
     fr = replay_family(pid, progs, ctors=ctors, clone_points=clone_points,
@@ -699,7 +700,8 @@ def fine_part(out, pid, tier, byid, reqs, fine_runs, proj, what, max_leads=40, w
         e["me"] = [e["me"][0], e["me"][1] + 1, e["me"][2]]
         c["i"] = -1 - len(canaries)
         canaries.append(c)
-    tlc, ok, rej = validate_fine(pid, fine_runs + canaries, workers=8 if tier == "quick" else 14)
+    tlc, ok, rej = validate_fine(pid, fine_runs + canaries, workers=8 if tier == "quick" else 14,
+                                 timeout=1500 if tier == "quick" else 5000)
     for c in canaries:
         if c["i"] in ok:
             raise ToolError("LexUtil.tla accepted a deliberately corrupted fine-grained recording")
@@ -719,7 +721,8 @@ def fine_part(out, pid, tier, byid, reqs, fine_runs, proj, what, max_leads=40, w
                 have.add(p_)
         mruns = [dict(r, script=reqs[r["i"]]["script"]) for r in fine_runs if r["p"] in have]
         if mruns:
-            mtlc, mok, mach_rej = validate_machine(pid, pairs, mruns, workers=8 if tier == "quick" else 14)
+            mtlc, mok, mach_rej = validate_machine(pid, pairs, mruns, workers=8 if tier == "quick" else 14,
+                                                   timeout=1500 if tier == "quick" else 5000)
             mach_n = len(mruns)
             lost = [r for r in mruns if r["i"] not in mok and r["i"] not in mach_rej]
             if lost:
@@ -853,7 +856,8 @@ def trace_part(out, pid, tier, progs, ws, batches, seed, n_runs, maxlen, proj, w
         c["i"] = -1 - len(canaries)
         canaries.append(c)
     tlc, accepted = validate_traces(pid, progs, tovalidate + canaries,
-                                    workers=8 if tier == "quick" else 14)
+                                    workers=8 if tier == "quick" else 14,
+                                    timeout=1500 if tier == "quick" else 5000)
     bad_canaries = [c for c in canaries if c["i"] in accepted]
     if bad_canaries:
         raise ToolError("trace validation accepted a deliberately corrupted recording: %s"
@@ -985,7 +989,7 @@ def check_C09(tier, seed):
         longn = 20000 if tier == "quick" else 100000
         extra = []
         runs, reqs = trace_part(out, "C09", tier, progs, fr.ws, fr.batches, seed,
-                                sizes(tier, 40, 300), 60, lambda evs: [c09_reason(evs, 10 ** 9, False)],
+                                sizes(tier, 40, 80), 60, lambda evs: [c09_reason(evs, 10 ** 9, False)],
                                 "termination/progress/panic-freedom",
                                 extra_inputs=[[c] * longn for c in (97, 120)] + [[120, 97] * 500])
         n_long = 0
@@ -1062,7 +1066,7 @@ def check_C14(tier, seed):
         })
     out.coverage["mismatches_outside_projection"] = other
     if fr.ws is not None:
-        trace_part(out, "C14", tier, progs, fr.ws, fr.batches, seed, sizes(tier, 30, 200), 60,
+        trace_part(out, "C14", tier, progs, fr.ws, fr.batches, seed, sizes(tier, 30, 80), 60,
                    lambda evs: [{k_: v for k_, v in e.items() if k_ not in ("tx",)} for e in evs],
                    "stream of an iterator-built lexer differs from the specification",
                    ctors=(0, 1, 2, 3))
